@@ -473,6 +473,18 @@ Definition run (c : val) : val :=
       else if String.eqb fam "sess" then run_sess args
       else if String.eqb fam "tx" then run_tx args
       else if String.eqb fam "dmn" then run_dmn args
+      else if String.eqb fam "conc" then
+        (* a sequence of whole transactions: no overlap seen by the peer, every caller gets its own reply, all complete *)
+        (match args with
+         | [VS _; VL ops; VN _] => VL [VN 0; VL (map (fun _ => VS "ok") ops); VN (N.of_nat (List.length ops))]
+         | _ => verror "args" end)
+      else if String.eqb fam "conc-spec" then
+        (match args with
+         | [VS _; VL ops; VN _; VL [VN overlaps; VL results; VN completed]] =>
+             vbool ((overlaps =? 0) && forallb (fun r => match r with VS "ok" => true | _ => false end) results
+                    && (completed =? N.of_nat (List.length ops)))
+         | [_; _; _; _] => VS "false"
+         | _ => verror "args" end)
       else if String.eqb fam "race" then (match args with [VL toks] => race_run toks | _ => verror "args" end)
       else if String.eqb fam "race-spec" then race_spec args
       else if String.eqb fam "kern" then run_kern args
